@@ -25,9 +25,15 @@ type c11Sys struct {
 	n     int
 }
 
-func (s *c11Sys) NumEvents() int          { return len(s.keys) }
-func (s *c11Sys) Enabled(int) bool        { return true }
-func (s *c11Sys) EventName(ev int) string { return "access " + s.keys[ev] }
+func (s *c11Sys) NumEvents() int   { return len(s.keys) }
+func (s *c11Sys) Enabled(int) bool { return true }
+func (s *c11Sys) EventName(ev int) string {
+	if s.uncacheable(s.keys[ev]) {
+		return "access " + s.keys[ev] + " (uncacheable: becomes a hit-for-pass marker)"
+	}
+	return "access " + s.keys[ev]
+}
+func (s *c11Sys) uncacheable(k string) bool { return strings.HasSuffix(k, "!") }
 func (s *c11Sys) Reset() {
 	env.Silence()
 	cache.VerifFreshRegistries()
@@ -42,6 +48,12 @@ func (s *c11Sys) Apply(ev int) (string, string, string) {
 	d := cache.GetDispatcher("c1")
 	hc := d.GetHTTPCache([]byte(k))
 	s.keep = append(s.keep, hc)
+	if s.uncacheable(k) {
+		// what the cache middleware does for a key whose fetch turns out uncacheable
+		if st, _ := hc.Get(); st == cache.StatusFetching {
+			hc.HitForPass(300)
+		}
+	}
 	id := fmt.Sprintf("%p", hc)
 	victim, was := s.lru.Touch(k)
 	if victim != "" {
@@ -79,6 +91,9 @@ func (s *c11Sys) Key() string {
 
 var _ xstate.System = (*c11Sys)(nil)
 
+// a store URL that validates but can never be opened (the path is below a character device)
+const c11BadStore = "badger:///dev/null/pike-verif-unopenable"
+
 func init() {
 	Register("C11", func(c *Ctx) {
 		c.Out.Rule = "(1) for every configured size S in 1..40 and {127,128,129,1016,1023,1024,1025,2047,2048,51200}: dispatcher created through pike's own configuration path, 4S+64 distinct keys inserted, resident entries (sum of shard lengths) read after every insert and compared with S; (2) BFS over all access sequences of 4 keys (depth 7) on one shard with limit 1..3 against a list-based LRU model (entry identity, order, victim); non-trivial = every insert / BFS transition"
@@ -92,13 +107,31 @@ func init() {
 			sizes = append(sizes, 127, 128, 129, 1016, 1023, 1024, 1025, 2047, 2048, 51200)
 			st.Bounds = fmt.Sprintf("%d sizes, 4S+64 inserts each, residency read after every insert", len(sizes))
 			env.Silence()
-			for i, S := range sizes {
+			type sv struct {
+				S     int
+				Store string
+			}
+			var cases []sv
+			for _, S := range sizes {
+				cases = append(cases, sv{S, ""})
+			}
+			// a cache whose configured store cannot be opened runs memory-only — with the configured size
+			for _, S := range []int{1, 2, 7, 8, 16, 100, 1024} {
+				cases = append(cases, sv{S, c11BadStore})
+			}
+			st.Bounds += "; 7 sizes again on a cache whose badger store cannot be opened"
+			for i, cs := range cases {
+				S := cs.S
 				if !c.Mine(int64(i)) {
 					continue
 				}
 				cache.VerifFreshRegistries()
-				cache.ResetDispatchers([]config.CacheConfig{{Name: "c", Size: S, HitForPass: "5m"}})
+				cache.ResetDispatchers([]config.CacheConfig{{Name: "c", Size: S, HitForPass: "5m", Store: cs.Store}})
 				d := cache.GetDispatcher("c")
+				if d == nil {
+					c.Violation("sizes", "cache-missing-after-configuration", fmt.Sprintf("size %d store %q: no dispatcher registered", S, cs.Store), nil, cs, nil)
+					continue
+				}
 				max := 0
 				n := 4*S + 64
 				for j := 0; j < n; j++ {
@@ -116,7 +149,7 @@ func init() {
 					if S < 8 {
 						sig = "resident-exceeds-size-below-8"
 					}
-					c.Violation("sizes", sig, fmt.Sprintf("size %d: %d entries resident after %d inserts (zones %d, per-shard limit %d)", S, max, n, d.VerifZones(), d.VerifShardMax(0)), nil, map[string]int{"size": S}, nil)
+					c.Violation("sizes", sig, fmt.Sprintf("size %d (store %q): %d entries resident after %d inserts (zones %d, per-shard limit %d)", S, cs.Store, max, n, d.VerifZones(), d.VerifShardMax(0)), nil, cs, nil)
 				}
 				if S >= 64 && max < S/2 {
 					c.Violation("sizes", "capacity-far-below-size", fmt.Sprintf("size %d: only %d entries ever resident", S, max), nil, map[string]int{"size": S}, nil)
@@ -169,6 +202,10 @@ func init() {
 		c.RunSched(c06Conc(c, "conc3-inflight-eviction-limit2", 2, [][]c06Key{{U[0]}, {U[8], U[3]}, {U[5], U[2]}}, vsched.Bounds{Preempt: pre, Tick: 0, Data: -1, Total: -1}))
 		for _, limit := range []int{1, 2, 3} {
 			c.runBFS(fmt.Sprintf("lru-bfs-limit%d", limit), &c11Sys{limit: limit, keys: []string{"GET a.com /a", "GET a.com /b", "GET a.com /c", "GET a.com /d"}}, depth, nil)
+		}
+		// mixed population: two of the four keys are uncacheable and become hit-for-pass markers
+		for _, limit := range []int{1, 2} {
+			c.runBFS(fmt.Sprintf("lru-bfs-markers-limit%d", limit), &c11Sys{limit: limit, keys: []string{"GET a.com /a", "GET a.com /b", "GET a.com /u!", "GET a.com /v!"}}, depth, nil)
 		}
 	})
 }
